@@ -261,6 +261,35 @@ def _relocated_row(table, s, live_keys):
     return cands[0] if len(cands) == 1 else None
 
 
+def _norm_desc(desc):
+    """operand provenance modulo what a move into a helper/closure changes: ordinal suffix, anonymous closure parameters and locals"""
+    d = re.sub(r" #\d+$", "", desc)
+    ops = []
+    for o in d.split(" , "):
+        alts = [a.strip() for a in o.split(" | ")]
+        # a loop-carried accumulator (`const 0 | op`), an anonymous closure parameter or an unnamed local: all "some running value"
+        if any(a == "op" or a.startswith("local") or re.match(r"param _\d+", a) for a in alts):
+            ops.append("*")
+        else:
+            ops.append(" | ".join(alts))
+    return " , ".join(ops)
+
+
+def _moved_row(table, s, live_keys, used):
+    """a site that moved into an extracted helper, a split-off method or a closure of the same source file: adopt a reviewed row of the
+    same file, kind and (normalised) operand provenance whose own site no longer exists; each such row serves one site"""
+    fid, kind, desc = s["key"].split(" | ", 2)
+    f = s["fn"].file
+    nd = _norm_desc(desc)
+    for k, row in table.items():
+        if k in live_keys or k in used or row.get("file") != f:
+            continue
+        parts = k.split(" | ", 2)
+        if len(parts) == 3 and parts[1] == kind and _norm_desc(parts[2]) == nd:
+            return k
+    return None
+
+
 def load_table():
     if not os.path.exists(TABLE):
         return {}
@@ -301,6 +330,8 @@ def run(ctx):
             # the function may have been renamed / its body moved into a sibling (compute -> compute_in): adopt the row of a site with the
             # same owner (module or impl type), kind, operand provenance and ordinal whose own site no longer exists
             alt = _relocated_row(table, s, live_keys)
+            if alt is None or alt in used:
+                alt = _moved_row(table, s, live_keys, used)
             if alt is not None:
                 row = table[alt]
                 used.add(alt)
